@@ -1,4 +1,4 @@
-import AQ.Proofs.TlsCodec
+import AQ.Proofs.TlsCodecMsg
 /-
   C17 (TLS part) — "Encoding then decoding returns the original value for every
   ... TLS handshake message ...  Decoding arbitrary bytes either yields a value
@@ -187,14 +187,14 @@ theorem exts_rt (xs : List Ext) (r : Bytes) (h : extsValid xs) :
 
 /-- EncryptedExtensions round-trips (any extensions, each inside its declared length) -/
 theorem encrypted_extensions_roundtrip (m : EncryptedExtensions) (r : Bytes) (h : extsValid m.exts)
-    (hl : (listEnc 2 extEnc m.exts).length < 256 ^ 3) :
+    (hl : m.body.length < 256 ^ 3) :
     EncryptedExtensions.dec (m.enc ++ r) = some (m, r) := by
   unfold EncryptedExtensions.enc
   simp only [List.cons_append, EncryptedExtensions.dec]
   apply block_rt 3 _ _ r m hl
   have := exts_rt m.exts [] h
   rw [List.append_nil] at this
-  simp [this]
+  simp [EncryptedExtensions.decBody, EncryptedExtensions.body, this]
 
 def ServerHello.valid (m : ServerHello) : Prop :=
   m.random.length = 32 ∧ m.sessionId.length < 256 ∧ m.cipherSuite < 256 ^ 2 ∧ m.compression < 256 ∧
@@ -258,6 +258,145 @@ theorem client_hello_roundtrip (m : ClientHello) (r : Bytes) (h : ClientHello.va
   rw [List.append_nil] at this
   simp only [this]
 
+def NewSessionTicket.valid (m : NewSessionTicket) : Prop :=
+  m.lifetime < 256 ^ 4 ∧ m.ageAdd < 256 ^ 4 ∧ m.nonce.length < 256 ∧ m.ticket.length < 256 ^ 2 ∧
+    extsValid m.exts ∧ m.body.length < 256 ^ 3
+
+/-- NewSessionTicket round-trips -/
+theorem new_session_ticket_roundtrip (m : NewSessionTicket) (r : Bytes) (h : NewSessionTicket.valid m) :
+    NewSessionTicket.dec (m.enc ++ r) = some (m, r) := by
+  rcases h with ⟨h1, h2, h3, h4, h5, h6⟩
+  unfold NewSessionTicket.enc
+  simp only [List.cons_append, NewSessionTicket.dec]
+  apply block_rt 3 _ _ r m h6
+  unfold NewSessionTicket.decBody NewSessionTicket.body
+  simp only [List.append_assoc]
+  rw [uintBE_rt 4 m.lifetime _ h1]
+  simp only []
+  rw [uintBE_rt 4 m.ageAdd _ h2]
+  simp only []
+  rw [opq_rt 1 m.nonce _ (by simpa using h3)]
+  simp only []
+  rw [opq_rt 2 m.ticket _ h4]
+  simp only []
+  have := exts_rt m.exts [] h5
+  rw [List.append_nil] at this
+  simp only [this]
+
+def CertificateRequest.valid (m : CertificateRequest) : Prop :=
+  m.context.length < 256 ∧ extsValid m.exts ∧ m.body.length < 256 ^ 3
+
+/-- CertificateRequest round-trips -/
+theorem certificate_request_roundtrip (m : CertificateRequest) (r : Bytes) (h : CertificateRequest.valid m) :
+    CertificateRequest.dec (m.enc ++ r) = some (m, r) := by
+  rcases h with ⟨h1, h2, h3⟩
+  unfold CertificateRequest.enc
+  simp only [List.cons_append, CertificateRequest.dec]
+  apply block_rt 3 _ _ r m h3
+  unfold CertificateRequest.decBody CertificateRequest.body
+  rw [opq_rt 1 m.context _ (by simpa using h1)]
+  have := exts_rt m.exts [] h2
+  rw [List.append_nil] at this
+  simp only [this]
+
+/-! ### decode then re-encode (canonicity) for every message
+
+At the framing level modelled here (fixed-width big-endian lengths, extensions
+kept as an ORDERED list of (type, extension_data)), the TLS encoding is
+canonical: a byte string that decodes is EXACTLY the encoding of the decoded
+value, so it re-encodes to itself and decodes to the same value again.  No
+non-canonical input is accepted at this level.
+
+What tls.py's dataclasses do NOT preserve (so `push_X(pull_X(b))` may differ
+from `b` while being an equivalent message; checked by checks/c17_tls.py with
+`norm` / `lenient`): the ORDER of the extensions tls.py understands (they are
+re-emitted in a fixed order, unknown ones after them in their original order),
+duplicated extensions (the last one wins), ALPN names that are not ASCII
+(skipped), and all but the first ALPN name of EncryptedExtensions. -/
+
+theorem certificate_canonical (bs r : Bytes) (m : Certificate) (h : Certificate.dec bs = some (m, r)) :
+    bs = m.enc ++ r := by
+  rw [cert_dec_eq] at h; exact msgDec_canon 11 _ Certificate.body cert_body_canon bs r m h
+
+theorem encrypted_extensions_canonical (bs r : Bytes) (m : EncryptedExtensions)
+    (h : EncryptedExtensions.dec bs = some (m, r)) : bs = m.enc ++ r := by
+  rw [ee_dec_eq] at h; exact msgDec_canon 8 _ EncryptedExtensions.body ee_body_canon bs r m h
+
+theorem server_hello_canonical (bs r : Bytes) (m : ServerHello) (h : ServerHello.dec bs = some (m, r)) :
+    bs = m.enc ++ r := by
+  rw [sh_dec_eq] at h; exact msgDec_canon 2 _ ServerHello.body sh_body_canon bs r m h
+
+theorem client_hello_canonical (bs r : Bytes) (m : ClientHello) (h : ClientHello.dec bs = some (m, r)) :
+    bs = m.enc ++ r := by
+  rw [ch_dec_eq] at h; exact msgDec_canon 1 _ ClientHello.body ch_body_canon bs r m h
+
+theorem new_session_ticket_canonical (bs r : Bytes) (m : NewSessionTicket)
+    (h : NewSessionTicket.dec bs = some (m, r)) : bs = m.enc ++ r := by
+  rw [nst_dec_eq] at h; exact msgDec_canon 4 _ NewSessionTicket.body nst_body_canon bs r m h
+
+theorem certificate_request_canonical (bs r : Bytes) (m : CertificateRequest)
+    (h : CertificateRequest.dec bs = some (m, r)) : bs = m.enc ++ r := by
+  rw [cr_dec_eq] at h; exact msgDec_canon 13 _ CertificateRequest.body cr_body_canon bs r m h
+
+/-- "Decoding arbitrary bytes ... yields a value that re-encodes to an equivalent
+    encoding": for all eight messages, whatever decodes re-encodes to bytes that
+    decode to the same value (here even to the same bytes) -/
+theorem reencode_decodes_same :
+    (∀ bs r m, Finished.dec bs = some (m, r) → Finished.dec (m.enc ++ r) = some (m, r)) ∧
+    (∀ bs r m, CertificateVerify.dec bs = some (m, r) → CertificateVerify.dec (m.enc ++ r) = some (m, r)) ∧
+    (∀ bs r m, Certificate.dec bs = some (m, r) → Certificate.dec (m.enc ++ r) = some (m, r)) ∧
+    (∀ bs r m, EncryptedExtensions.dec bs = some (m, r) → EncryptedExtensions.dec (m.enc ++ r) = some (m, r)) ∧
+    (∀ bs r m, ServerHello.dec bs = some (m, r) → ServerHello.dec (m.enc ++ r) = some (m, r)) ∧
+    (∀ bs r m, ClientHello.dec bs = some (m, r) → ClientHello.dec (m.enc ++ r) = some (m, r)) ∧
+    (∀ bs r m, NewSessionTicket.dec bs = some (m, r) → NewSessionTicket.dec (m.enc ++ r) = some (m, r)) ∧
+    (∀ bs r m, CertificateRequest.dec bs = some (m, r) → CertificateRequest.dec (m.enc ++ r) = some (m, r)) := by
+  refine ⟨?_, ?_, ?_, ?_, ?_, ?_, ?_, ?_⟩ <;> intro bs r m h
+  · rw [← finished_canonical bs r m h]; exact h
+  · rw [← certificate_verify_canonical bs r m h]; exact h
+  · rw [← certificate_canonical bs r m h]; exact h
+  · rw [← encrypted_extensions_canonical bs r m h]; exact h
+  · rw [← server_hello_canonical bs r m h]; exact h
+  · rw [← client_hello_canonical bs r m h]; exact h
+  · rw [← new_session_ticket_canonical bs r m h]; exact h
+  · rw [← certificate_request_canonical bs r m h]; exact h
+
+/-- re-emitting the extensions in another order (what tls.py does for the ones
+    it understands) yields an encoding that decodes to the same message up to that
+    permutation -/
+theorem reordered_extensions_roundtrip (m : EncryptedExtensions) (xs : List Ext) (r : Bytes)
+    (hp : xs.Perm m.exts) (h : extsValid m.exts) (hl : m.body.length < 256 ^ 3) :
+    EncryptedExtensions.dec ((⟨xs⟩ : EncryptedExtensions).enc ++ r) = some (⟨xs⟩, r) := by
+  have hlen : (xs.flatMap extEnc).length = (m.exts.flatMap extEnc).length := (hp.flatMap_right extEnc).length_eq
+  apply encrypted_extensions_roundtrip
+  · exact ⟨fun x hx => h.1 x (hp.subset hx), by rw [hlen]; exact h.2⟩
+  · simp only [EncryptedExtensions.body, listEnc, opqEnc, List.length_append, beEnc_length] at hl ⊢
+    rw [hlen]; exact hl
+
+/-! ### boundedness at message level -/
+
+/-- "never reading past the declared length of an enclosing field", for whole
+    messages: the result of every message parser is determined by the bytes inside
+    the declared 24-bit length; the bytes after it are returned untouched and
+    cannot influence the value -/
+theorem message_bounded (inner r r' : Bytes) (h : inner.length < 256 ^ 3) :
+    (CertificateVerify.dec (15 :: opqEnc 3 inner ++ r)).map (·.1) = (CertificateVerify.dec (15 :: opqEnc 3 inner ++ r')).map (·.1) ∧
+    (Certificate.dec (11 :: opqEnc 3 inner ++ r)).map (·.1) = (Certificate.dec (11 :: opqEnc 3 inner ++ r')).map (·.1) ∧
+    (EncryptedExtensions.dec (8 :: opqEnc 3 inner ++ r)).map (·.1) = (EncryptedExtensions.dec (8 :: opqEnc 3 inner ++ r')).map (·.1) ∧
+    (ServerHello.dec (2 :: opqEnc 3 inner ++ r)).map (·.1) = (ServerHello.dec (2 :: opqEnc 3 inner ++ r')).map (·.1) ∧
+    (ClientHello.dec (1 :: opqEnc 3 inner ++ r)).map (·.1) = (ClientHello.dec (1 :: opqEnc 3 inner ++ r')).map (·.1) ∧
+    (NewSessionTicket.dec (4 :: opqEnc 3 inner ++ r)).map (·.1) = (NewSessionTicket.dec (4 :: opqEnc 3 inner ++ r')).map (·.1) ∧
+    (CertificateRequest.dec (13 :: opqEnc 3 inner ++ r)).map (·.1) = (CertificateRequest.dec (13 :: opqEnc 3 inner ++ r')).map (·.1) ∧
+    (Finished.dec (20 :: opqEnc 3 inner ++ r)).map (·.1) = (Finished.dec (20 :: opqEnc 3 inner ++ r')).map (·.1) := by
+  refine ⟨?_, ?_, ?_, ?_, ?_, ?_, ?_, ?_⟩
+  · rw [cv_dec_eq, cv_dec_eq]; exact (msgDec_bounded 15 _ inner r r' h).2
+  · rw [cert_dec_eq, cert_dec_eq]; exact (msgDec_bounded 11 _ inner r r' h).2
+  · rw [ee_dec_eq, ee_dec_eq]; exact (msgDec_bounded 8 _ inner r r' h).2
+  · rw [sh_dec_eq, sh_dec_eq]; exact (msgDec_bounded 2 _ inner r r' h).2
+  · rw [ch_dec_eq, ch_dec_eq]; exact (msgDec_bounded 1 _ inner r r' h).2
+  · rw [nst_dec_eq, nst_dec_eq]; exact (msgDec_bounded 4 _ inner r r' h).2
+  · rw [cr_dec_eq, cr_dec_eq]; exact (msgDec_bounded 13 _ inner r r' h).2
+  · simp only [List.cons_append, Finished.dec, opq_rt 3 inner _ h, Option.map_some]
+
 /-! ### the hypotheses are satisfiable -/
 
 example : Finished.dec ((⟨[1, 2, 3]⟩ : Finished).enc ++ [9]) = some (⟨[1, 2, 3]⟩, [9]) := by decide
@@ -276,3 +415,7 @@ end AQ.Props.C17tls
 #print axioms AQ.Props.C17tls.certificate_roundtrip
 #print axioms AQ.Props.C17tls.server_hello_roundtrip
 #print axioms AQ.Props.C17tls.client_hello_roundtrip
+#print axioms AQ.Props.C17tls.reencode_decodes_same
+#print axioms AQ.Props.C17tls.message_bounded
+#print axioms AQ.Props.C17tls.new_session_ticket_roundtrip
+#print axioms AQ.Props.C17tls.certificate_request_roundtrip
